@@ -247,6 +247,10 @@ func (wk *worker) runCase(c *Case, srv *jwksServer, w *trace.Writer, stats map[s
 		}
 
 		payload, _ := json.Marshal(claims)
+		if c.Conc.Extra%3 == 0 { // every third case: dates in exponent notation
+			payload = ExponentDates(payload)
+		}
+
 		c.Claims = Canon(claims)
 
 		base := *c
